@@ -68,7 +68,13 @@ def faultLine (rs : RibSt) (ts : List Tok) : RibSt :=
     let fr := Cl.reset faulty
     let modelFresh := fr.pendOps.isEmpty && fr.results.isEmpty && fr.sendErrs == 0 && fr.recvErrs == 0 && !fr.pendElec && !fr.pendParams
     let rs := if (g "fresh" == "1") == modelFresh then rs else rs.monfail "c14" s!"{desc} after Reset the client still has stale pending operations, results or errors"
-    if g "exch" == "ok" then rs else rs.monfail "c14" s!"{desc} after Reset and Connect the client does not work as a fresh one: {g "exch"}"
+    if g "exch" == "ok" then rs else
+      -- C13: on the new stream exactly the operations queued after the Reset are transmitted,
+      -- answered and accounted for (nothing of the torn-down stream reappears)
+      let rs := if (g "exch").startsWith "await-error" || (g "exch").startsWith "wrong-results"
+        then rs.monfail "c13" s!"{desc} after Reset and Connect the two operations queued on the new stream are not exactly what is transmitted and answered ({g "exch"}): operations of the torn-down stream reappear, or queued ones lack their result"
+        else rs
+      rs.monfail "c14" s!"{desc} after Reset and Connect the client does not work as a fresh one: {g "exch"}"
   let rs := if g "resetrace" == "hang" then rs.monfail "c14" s!"{desc} Reset running concurrently with AwaitConverged blocked (deadlock)" else rs
   if rs.monfails == 0 then rs.covr "cf.ok" else rs
 
